@@ -20,9 +20,17 @@ HArrStrMin1 == [type |-> "array", items |-> HStrMin1]
 HArrBool    == [type |-> "array", items |-> HBool]
 HObj        == [type |-> "object", pk |-> <<"a", "b">>, ps |-> <<HInt, HIntMax>>, required |-> <<"a">>]
 
+(* compositions: the header decoders have a branch of their own for each keyword (no `type` at the top: the text is    *)
+(* read by the alternatives' types)                                                                                  *)
+HAnyOf      == [anyOf |-> <<HInt, HBool>>]
+HOneOfDisj  == [oneOf |-> <<HInt, HBool>>]                               \* no text is read by both alternatives
+HOneOf      == [oneOf |-> <<HInt, HStrEnum>>]                            \* "1" is the integer 1 (valid) and the string "1" (not in the enum)
+HAllOf      == [allOf |-> <<HInt, HIntMax>>]
+CompSchemas == {HAnyOf, HOneOfDisj, HOneOf, HAllOf}
+
 PrimSchemas == {HInt, HIntMax, HNum, HBool, HStr, HStrMin1, HStrEnum, HStrPat}
 ArrSchemas  == {HArrInt, HArrIntMax2, HArrUniq, HArrStr, HArrStrMin1, HArrBool}
-HSchemas    == PrimSchemas \cup ArrSchemas \cup {HObj}
+HSchemas    == PrimSchemas \cup ArrSchemas \cup {HObj} \cup CompSchemas
 
 PlainTexts ==
    { <<>>, <<"1">>, <<"7">>, <<"1", "2">>, <<"1", ".", "5">>, <<"-", "1">>, <<"a">>, <<"a", "b">>, <<"b", "c">>,
@@ -37,7 +45,7 @@ ObjTexts ==
 HTexts == PlainTexts \cup ObjTexts
 
 (* the Go parsers take more spellings of a boolean than true / false ("1", "0", "t", ...): left open, never generated *)
-HasBool(s) == s.type = "boolean" \/ ("items" \in DOMAIN s /\ s.items.type = "boolean")
+HasBool(s) == HBool \in SubSchemas(s)
 LenientBool(cs) == \E i \in DOMAIN SplitAt(cs, ",") : SplitAt(cs, ",")[i] \in {<<"0">>, <<"1">>}
 
 Hdr(name, hs, hreq, explode, present, cs) ==
@@ -62,6 +70,11 @@ TwoHeaders ==
                 b \in {Hdr("x-b", hs, rq, FALSE, p, cs) : hs \in {HInt, HArrStrMin1}, rq \in BOOLEAN, p \in BOOLEAN,
                                                           cs \in States(HInt) \cup States(HArrStrMin1)} }
 TwoOK(h) == IF h.present THEN h.cs \in States(h.hs) ELSE h.cs = <<>>
+
+(* a header declared under the name Content-Type (in any letter case: header names are case-insensitive, RFC 9110)  *)
+(* "SHALL be ignored" (OAS 3.0.3, Response Object): the content type is checked against `content`, not here          *)
+CtCs == <<"a", "p", "p", "l", "i", "c", "a", "t", "i", "o", "n", "/", "j", "s", "o", "n">>
+CtHeaders == {Hdr(nm, HInt, rq, FALSE, TRUE, CtCs) : nm \in {"Content-Type", "content-type"}, rq \in BOOLEAN}
 
 ASSUME TextReadingsSound(HTexts)
 =============================================================================
